@@ -59,10 +59,10 @@ PROPS = {
     "C09": {"modules": [P + "C09", P + "C09Gen", P + "C03Refine", P + "C03Gen", P + "C14Refine", P + "C14Gen"], "streams": ["fit", "semi", "knnpred"], "relevant": {"predict": [0], "knnq": None}},
     "C15": {"modules": [P + "C15", P + "C15Refine", P + "C15Gen"], "streams": ["semi", "precomp"], "min_classes": 2, "relevant": {"fit": [0, 1, 2, 3, 4, 5, 6], "lawfit": None}},
     "C16": {"modules": [P + "C16", P + "C16Cut", P + "C16Pipeline", P + "C16Refine", P + "C16SelRefine"], "streams": ["select"], "relevant": {"selmax": None, "selcut": None, "ncut": None, "unsfit": None, "knnfit": None}},
-    "C10": {"modules": [P + "C10", P + "C10Refine", P + "C10Gen"], "streams": ["precomp", "fit"], "relevant": {"fit": [0, 1, 2, 3, 5], "predict": [0]}},
+    "C10": {"modules": [P + "C10", P + "C10Refine", P + "C10Gen", P + "C10Load"], "streams": ["precomp", "fit"], "relevant": {"fit": [0, 1, 2, 3, 5], "predict": [0]}},
     "C11": {"modules": [P + "C11Map", P + "C11Family", P + "C11Perm", P + "C11Registry", P + "C11Gen", P + "C11GenPerm"], "streams": ["c11", "fit"], "relevant": {"fit": [0, 1, 2, 3, 5], "predict": [0]}},
     "C17": {"modules": [P + "C17", P + "C17Iter", P + "C17Refine", P + "C17Gen", P + "C17LearnRefine", P + "C17LearnAny", P + "C17PruneRefine"], "streams": ["learn", "fit", "measures"], "relevant": {"swap": None, "best": None, "prune": None, "iters": None, "predict": [1]}},
-    "C18": {"modules": [P + "C18", P + "C18Refine", P + "C18ParseRefine", P + "C18ConvRefine"], "streams": ["stream"]},
+    "C18": {"modules": [P + "C18", P + "C18Refine", P + "C18ParseRefine", P + "C18ConvRefine", P + "C18Load"], "streams": ["stream"]},
     "C19": {"modules": [P + "C19"], "streams": ["persist"]},
     "C20": {"modules": [P + "C20", P + "C20Refine"], "streams": ["measures"]},
     "C12": {"modules": [P + "C12Arcs", P + "C12Pdf", P + "C12Refine", P + "C12PdfRefine", P + "C12Gen", P + "C13PropagateRefine"], "streams": ["knn"]},
